@@ -369,7 +369,8 @@ func (e *CoreExtension) filterSplit(value interface{}, args ...interface{}) (int
 	// Handle multiple character delimiters (split on any character in the delimiter)
 	if len(delimiter) > 1 {
 		// Convert delimiter string to a regex character class
-		pattern := "[" + regexp.QuoteMeta(delimiter) + "]"
+		// QuoteMeta leaves the dash alone, which inside a character class would form a range
+		pattern := "[" + strings.ReplaceAll(regexp.QuoteMeta(delimiter), "-", `\-`) + "]"
 		re := regexp.MustCompile(pattern)
 
 		if limit > 0 {
